@@ -142,6 +142,7 @@ def parseStep (s : String) : Option Step :=
   | ["N", name, items] => some (.newTag (ptok name) (parseItems items))
   | ["C", i] => some (.copy i.toNat!)
   | ["M", i, key, op, arg] => some (.mutate i.toNat! (ptok key) (parseListOp op arg))
+  | ["T", i, x] => some (.ctor i.toNat! (x == "1"))
   | ["D", i, key] => some (.del i.toNat! (ptok key))
   | ["S", i, kv] =>
     match kv.splitOn "=" with
